@@ -409,10 +409,37 @@ class Pickled(OpcodeSequence):
     def __getitem__(self, index: int) -> Opcode:
         return self._opcodes[index]
 
+    def _frame_at(self, index: int) -> Optional["Frame"]:
+        """The FRAME opcode inside whose announced extent the opcode at `index` starts, if any"""
+        offset = 0
+        frame, frame_end = None, 0
+        for i, opcode in enumerate(self._opcodes):
+            if i == index:
+                break
+            if isinstance(opcode, Frame):
+                frame, frame_end = opcode, offset + len(opcode.data) + opcode.arg
+            offset += len(opcode.data)
+        if frame is not None and offset < frame_end:
+            return frame
+        return None
+
+    @staticmethod
+    def _resize_frame(frame: Optional["Frame"], delta: int):
+        # A FRAME opcode announces how many bytes its frame holds. An unpickler that reads from a
+        # file takes it at its word, so an edit inside a frame has to be reflected in that length
+        if frame is not None and delta:
+            frame.arg += delta
+            frame.data = None  # re-encode with the new length instead of reusing the parsed bytes
+
     def insert(self, index: int, opcode: Opcode):
+        length = len(self._opcodes)
+        position = max(0, length + index) if index < 0 else min(index, length)
+        frame = self._frame_at(position)
         self._opcodes.insert(index, opcode)
         self._ast = None
         self._properties = None
+        if frame is not None:
+            self._resize_frame(frame, len(opcode.data))
 
     def _is_constant_type(self, obj: Any) -> bool:
         return isinstance(obj, (int, float, str, bytes))
@@ -676,14 +703,26 @@ class Pickled(OpcodeSequence):
         )
 
     def __setitem__(self, index: Union[int, slice], item: Union[Opcode, Iterable[Opcode]]):
+        frame, old_length = None, 0
+        if isinstance(index, int) and not isinstance(self._opcodes[index], Frame):
+            frame = self._frame_at(index % len(self._opcodes))
+            old_length = len(self._opcodes[index].data)
         self._opcodes[index] = item
         self._ast = None
         self._properties = None
+        if frame is not None:
+            self._resize_frame(frame, len(item.data) - old_length)
 
     def __delitem__(self, index: int):
+        frame, old_length = None, 0
+        if isinstance(index, int) and not isinstance(self._opcodes[index], Frame):
+            frame = self._frame_at(index % len(self._opcodes))
+            old_length = len(self._opcodes[index].data)
         del self._opcodes[index]
         self._ast = None
         self._properties = None
+        if frame is not None:
+            self._resize_frame(frame, -old_length)
 
     def dumps(self) -> bytes:
         b = bytearray()
@@ -1553,6 +1592,9 @@ class Stop(Opcode):
 
 class Frame(NoOp):
     name = "FRAME"
+
+    def encode_body(self) -> bytes:
+        return struct.pack("<Q", self.arg)
 
 
 class BinInt1(ConstantInt):
